@@ -52,6 +52,23 @@ def mk_discrete_online(rng):
 
 def mk_dense_offline(rng):
     g = D.DGen(rng, D.VARS[:2], D.DENSE_OFF, max_bound=4)
+    if rng.random() < 0.5:
+        # operators applied directly to variables (their sample lists are the caller's lists), signals with repeated values
+        v1, v2 = ("v", rng.choice(D.VARS[:2])), ("v", rng.choice(D.VARS[:2]))
+        a = rng.randint(0, 2)
+        b = a + rng.randint(0, 4)
+        f = rng.choice([("tb1", rng.choice(["ev", "alw", "once", "hist"]), a, b, v1),
+                        ("tb2", rng.choice(["until", "since"]), a, b, v1, v2),
+                        ("t1", rng.choice(["ev", "alw", "once", "hist"]), v1),
+                        ("t2", rng.choice(["until", "since"]), v1, v2),
+                        ("b", rng.choice(["and", "or", "add", "sub", "lt", "implies"]), v1, v2),
+                        ("u", rng.choice(["not", "negate", "abs"]), v1)])
+        if rng.random() < 0.3:
+            f = ("b", rng.choice(["and", "or"]), f, g.formula(1))
+        vs = F.variables(f) or ["x"]
+        sig = D.gen_signals(rng, vs)
+        sig = {v: [(t, rng.choice([0.0, 1.0, 1.0, 2.0])) for (t, _) in s_] for v, s_ in sig.items()}
+        return {"kind": "offc", "f": f, "sig": sig, "vars": vs}
     f = g.formula(rng.choice([1, 2, 3]))
     vs = F.variables(f) or ["x"]
     return {"kind": "offc", "f": f, "sig": D.gen_signals(rng, vs), "vars": vs}
@@ -122,6 +139,38 @@ def scale_bounds(f, k):
     if f[0] == "tb2":
         return ("tb2", f[1], f[2] * k, f[3] * k, scale_bounds(f[4], k), scale_bounds(f[5], k))
     return F.rebuild(f, [scale_bounds(c, k) for c in F.children(f)])
+
+
+def check_online_dense(ctx, c, rng):
+    """Dense-time online update(): the sample lists handed over are not modified, whatever the chunking."""
+    f, sig = c["f"], c["sig"]
+    if any(g[0] in ("t2", "tb2") for g in F.subformulas(f)) or any(g[0] in ("t1", "tb1") and g[1] in ("ev", "alw") for g in F.subformulas(f)):
+        return None                       # future operators / since: not monitored online here (since: finding F32)
+    text = D.spec_text(f)
+    vs = sorted(sig)
+    times = sorted({t for v in vs for (t, _) in sig[v]})[1:]
+    cuts = sorted(rng.sample(times, rng.randint(0, min(2, len(times))))) if times else []
+
+    def go():
+        spec = impl.make_spec("onc", text, vs)
+        spec.parse()
+        chunks = {v: D.chunk_signal(sig[v], cuts) for v in vs}
+        for i in range(len(cuts) + 1):
+            args = [[v, D.py_sig(chunks[v][i])] for v in vs]
+            before = copy.deepcopy(args)
+            spec.update(*args)
+            if args != before:
+                return (i, before, args)
+        return None
+    out = impl.guarded(go)
+    rep = {"kind": "onc", "spec": text, "formula": F.to_proto(f), "signals": D.sig_rep(sig), "cuts": [str(x) for x in cuts], "impl": out}
+    if out[0] == "ok" and out[1] is not None:
+        i, before, after = out[1]
+        return Violation("dense online update() #%d modified the caller's sample lists: %r became %r: %s" % (i, before, after, text), rep,
+                         stream="pure/args")
+    if out[0] == "ok":
+        ctx.nontrivial.add(("onc", text, str(rep["signals"]), str(cuts)))
+    return None
 
 
 def check_interleaving(ctx, rng, cases):
@@ -238,7 +287,8 @@ def explore(ctx, rng, count):
         if kind == "offd":
             v = check_offline_discrete(ctx, mk_discrete_offline(rng))
         elif kind == "offc":
-            v = check_offline_dense(ctx, mk_dense_offline(rng))
+            c_ = mk_dense_offline(rng)
+            v = check_offline_dense(ctx, c_) or check_online_dense(ctx, c_, rng)
         else:
             v = check_interleaving(ctx, rng, [mk_discrete_online(rng) for _ in range(rng.choice([2, 3]))])
         if v is None:
